@@ -27,7 +27,7 @@ CONFIG = {
                   "and forward addresses.",
     "technique": "Lean 4 proof (inductive invariant over a transition system, all interleavings; characterisation of the sequential "
                  "policy function) + regenerated facts + scripted correspondence + e2e",
-    "components": [{"name": "policy", "timeout": {"quick": 300, "thorough": 1500}},
+    "components": [{"name": "policy", "timeout": {"quick": 600, "thorough": 2400}},
                    {"name": "polnet", "timeout": {"quick": 300, "thorough": 900}}],
     "rule": "policy: every upstream list of length 1..2 (thorough: 1..4, 780 lists) over {refused, silent, garbage, plain, secure} "
             "x security requirement x {reuse+cut+reconnect, concurrent+cut, close}; failing prefixes of every kind before the first "
